@@ -1083,6 +1083,10 @@ def _run(ctx, torch):
             what="Float instance of the Lean model (drivers/C11.lean) and the real code disagree; every property oracle of this family holds on the real code",
             examples=ds[:20], n=len(ds)), found=False)
 
+    import extra_oracles as _xo
+
+    _xo.api_history_and_dtype(ctx, "C11")
+
     ctx.notes["rule"] = (
         "complete: exhaustive cube of (lmax,res_beta,res_alpha) in ({None} ∪ [-3..9])^3 (thorough [-4..14]); init: both constructors on "
         "lmax ∈ {None,-2..8} × res ∈ {None, int, pair with None combos} (quick: subsample) incl. the observed FFT/einsum branch; "
